@@ -48,9 +48,14 @@ def run(tier):
             pre_und.append('frame scan: functions outside the contract set assign the accounting state (the contract set must grow): ' + '; '.join(bad[:5]))
     except Exception as e:
         pre_und.append('frame scan failed: %s' % e)
-    units = [dict(vspec=os.path.join(common.VERIF, 'contracts', 'c16_parser.vspec'))]
+    units = [dict(vspec=os.path.join(common.VERIF, 'contracts', 'c16_parser.vspec')),
+             dict(vspec=os.path.join(common.VERIF, 'contracts', 'c16_lexer.vspec'))]
     assumptions = [
-        'the lexer hands over a token list that ends with EOF, contains EOF nowhere else, and has fewer than 2^31 tokens (inv at construction; lex() is not extracted)',
+        'the parser unit takes "the token list ends with EOF and contains EOF nowhere else" as its invariant at construction; the lexer unit proves exactly that as a postcondition of lex() '
+        '(the two units are not linked mechanically: Parser::new is not extracted); fewer than 2^31 tokens',
+        'lexer unit: the cursor primitives over &str are wrapped (N7) with ASSUMED contracts: s.len() is the UTF-8 length, s[off..].chars().next() / the following character at a boundary offset; '
+        'char::is_digit / is_whitespace are uninterpreted classes; is_operator is ASSUMED to accept exactly the 23 characters of its string literal (the literal itself is not read by the verifier); '
+        'the `${}` nesting counters (open_braces.last_mut()) and the keyword HashMap are outside the contract; texts are shorter than 4 GiB (lex() refuses longer ones by a panic)',
         'the ~150 grammar functions behind parse_element preserve the accounting invariant and consume at least one token per element: ASSUMED; '
         'justified by the syntactic frame scan of parser.rs (they never assign events/leading/token_idx/tokens except through the functions under contract) - a scan, not a proof',
         'vx_comment_has_newline (string search in the source text) is an uninterpreted bool',
@@ -61,9 +66,13 @@ def run(tier):
         dict(invariant='inv', statement='adv(events) + leading == token_idx && the `leading` tokens before token_idx are trivia && token_idx < |tokens| && tokens end with the only EOF'),
         dict(function='Parser::raw_advance', contract='requires inv; ensures inv, token_idx grows by 1 unless at EOF, events only appended'),
         dict(function='Parser::advance_by_trailing_trivia', contract='requires inv; ensures inv, token_idx unchanged, leading shrinks by the number of Advance events pushed; `_ => unreachable!()` PROVED unreachable'),
+        dict(function='lex', contract='requires |content| <= u32::MAX; ensures partition(content, starts): starts[0] == 0, strictly increasing, every start on a character boundary and < |content| '
+             '(so every token is non-empty and the last one ends at the end of the text), |tokens| == |starts| + 1, last token EOF, no other EOF; terminates'),
+        dict(theorem='theorem_tokens_reproduce_the_text', statement='partition(cs, starts) ==> concatenation over i of cs[starts[i] .. starts[i+1] or end) == cs'),
+        dict(function='Lexer::read_token', contract='requires cursor on a boundary and not at the end; ensures the cursor moved forward by at least one whole character and is on a boundary; every `unwrap`/`expect`/`unreachable!()` inside is proved safe'),
         dict(function='Parser::parse_file', contract='ensures adv(events) == |tokens| - 1 && leading == 0: every lexed token, trivia included, is advanced exactly once'),
     ]
-    not_decided = ['lexer partitions the text (lexer.rs)', 'build_tree replays the events into the green tree (Arc/SmolStr/into_iter().rev())',
+    not_decided = ['which TokenKind the lexer assigns to a piece of text', 'build_tree replays the events into the green tree (Arc/SmolStr/into_iter().rev())',
                    'error spans inside the text', 're-parse equality', 'termination of parse_file (progress of parse_element is assumed)']
     return vprop.run_verus_property(PROP, tier, units, runner=_runner_spec(), assumptions=assumptions, samples=samples,
                                     not_decided=not_decided, pre_undecided=pre_und,
